@@ -73,7 +73,10 @@ def generate(tape, tier="quick"):
         if ngdim:
             sc["ngdim"] = ngdim
         return sc
-    for _ in range(tape.weighted([(10, 4), (20, 4), (35, 2)])):
+    # now and then a long history (a few hundred publications), with a second consumer that sleeps until the very end
+    nev = tape.weighted([(10, 40), (20, 40), (35, 20), (500, 1)])
+    sleeper = n_cons - 1 if nev > 100 and n_cons > 1 else None
+    for ei in range(nev):
         if tape.chance(2, 5) or not pubs:
             form = tape.choice(G_FORMS if gridded else (V_FORMS if ngdim else NG_FORMS))
             if pubs:
@@ -89,6 +92,8 @@ def generate(tape, tier="quick"):
                 pubs.append(t)       # nothing to share with: behaves like a plain array
         else:
             ci = tape.draw(n_cons)
+            if sleeper is not None and ei < nev - 12:
+                ci = tape.draw(n_cons - 1)
             lo = last[ci] if last[ci] is not None else pubs[0]
             mode = tape.weighted([("pub", 4), ("mid", 3), ("step", 4), ("newest", 2), ("future", 1), ("past", 1)])
             if mode == "pub":
